@@ -1,0 +1,16 @@
+//go:build verif
+
+package middleware
+
+import "net/http"
+
+// VerifHook, when set by a verification harness, is called at the linearization
+// points of the per-request serving pipeline: after the state change named by
+// stage, before anything else can observe it. Only compiled with -tags verif.
+var VerifHook func(stage string, r *http.Request, detail ...any)
+
+func verifStage(stage string, r *http.Request, detail ...any) {
+	if h := VerifHook; h != nil {
+		h(stage, r, detail...)
+	}
+}
